@@ -13,6 +13,8 @@ TReset == Ev.op = "reset" /\ reg' = {} /\ cval' = <<>> /\ hist' = <<>> /\ nSearc
 \* the iteration order is not observable: any permutation will do, so use the logged (sorted) order
 TGet   == Ev.op = "get" /\ GetOrCreate(Ident(Ev.kind, Ev.name, TagSet(Ev.tags)), TagSeq(Ev.tags), Ev.sid)
 TAdd   == Ev.op = "add" /\ Add(Ev.sid, Ev.n)
+TCReset == Ev.op = "creset" /\ Ev.sid \in DOMAIN cval /\ cval' = [cval EXCEPT ![Ev.sid] = 0]
+              /\ mlast' = [op |-> "creset", sid |-> Ev.sid] /\ UNCHANGED <<reg, hist, nSearch, nDb>>
 TCVal  == Ev.op = "cval" /\ Ev.sid \in DOMAIN cval /\ cval[Ev.sid] = Ev.n /\ RO
 TObs   == Ev.op = "observe" /\ Observe(Ev.sid, Ev.v)
 THRead == Ev.op = "hread" /\ Ev.sid \in DOMAIN hist
@@ -37,7 +39,7 @@ TConc  == Ev.op = "conc" /\ Ev.total = Ev.g * Ev.k /\ Ev.series = 1 /\ Ev.hcount
 
 TraceInit == l = 1 /\ reg = {} /\ cval = <<>> /\ hist = <<>> /\ nSearch = <<0, 0>> /\ nDb = <<>> /\ mlast = [op |-> "init", sid |-> 0]
 TraceNext == l <= Len(Trace) /\ l' = l + 1
-             /\ (TReset \/ TGet \/ TAdd \/ TCVal \/ TObs \/ THRead \/ TRecS \/ TRecD \/ TMSearch \/ TReport \/ TConc)
+             /\ (TReset \/ TGet \/ TAdd \/ TCReset \/ TCVal \/ TObs \/ THRead \/ TRecS \/ TRecD \/ TMSearch \/ TReport \/ TConc)
 TraceSpec == TraceInit /\ [][TraceNext]_tvars
 TraceAccepted ==
     LET d == TLCGet("stats").diameter IN
